@@ -2,6 +2,7 @@ package padding
 
 import (
 	"crypto/cipher"
+	"errors"
 	"io"
 )
 
@@ -14,12 +15,16 @@ func P7BlockDecrypt(decrypter cipher.BlockMode, in io.Reader, out io.Writer) err
 	bufOut := make([]byte, 1024)
 	p7Out := NewPKCS7PaddingWriter(out, decrypter.BlockSize())
 	for {
-		n, err := in.Read(bufIn)
-		if err != nil && err != io.EOF {
+		// in may return any number of bytes per Read: collect whole buffers
+		n, err := io.ReadFull(in, bufIn)
+		if err != nil && err != io.EOF && err != io.ErrUnexpectedEOF {
 			return err
 		}
 		if n == 0 {
 			break
+		}
+		if n%decrypter.BlockSize() != 0 {
+			return errors.New("ciphertext is not a multiple of the block size")
 		}
 		decrypter.CryptBlocks(bufOut, bufIn[:n])
 		_, err = p7Out.Write(bufOut[:n])
